@@ -12,6 +12,7 @@ import (
 	"fmt"
 	"io"
 	"net/http"
+	"net/http/httptest"
 	"strings"
 	"testing"
 
@@ -116,6 +117,11 @@ func seqRound(sc SeqCase) (v kit.Verdict) {
 	if sc.Overlap {
 		for i := range xs {
 			on(sc.Exchanges[i].Other, func() { logReq(i) })
+		}
+		if sc.Handler {
+			// the log is fetched while all exchanges are in flight; the fetch
+			// at the end must show them completed
+			har.NewExportHandler(l).ServeHTTP(httptest.NewRecorder(), httptest.NewRequest("GET", "/logs", nil))
 		}
 		for i := range xs {
 			on(sc.Exchanges[i].Other, func() { logRes(i) })
